@@ -89,3 +89,55 @@ Qed.
 Lemma sparse_to_dense_rejects_lemma :
   exists m, run false Sparse sparse_drop_ops = Some m /\ convert false Dense m = (None, Throw).
 Proof. eexists. split; vm_compute; reflexivity. Qed.
+
+(* ---------------------------------------------------------------- converting constructors validate the SOURCE's discount *)
+(* whatever the source reports (user-defined generic model, library model built through NO_CHECK): an
+   accepted conversion has the source's discount and that discount is in (0,1] *)
+Lemma copy_ctor_discount : forall fixed k g m r, construct fixed k (CtorCopy g) = (Some m, r) ->
+  mD m = gD g /\ mS m = gS g /\ mA m = gA g /\ setDiscount_ok fixed (gD g) = true.
+Proof.
+  intros fixed k g m r H. cbn [construct] in H.
+  destruct (negb (shape3 (gS g) (gA g) (gS g) (gT g) && shape3 (gS g) (gA g) (gS g) (gR g))); [discriminate|].
+  destruct (setDiscount_ok fixed (gD g)) eqn:Ed; cbn [negb] in H; [|discriminate].
+  destruct (copyT k (gS g) (gA g) (gT g)); [|discriminate]. inversion H; subst m. cbn [mD mS mA]. repeat split.
+Qed.
+
+Lemma copy_ctor_validates_discount_lemma : forall k g m r, construct true k (CtorCopy g) = (Some m, r) ->
+  r = Ok /\ valid_model m /\ mD m = gD g /\ disc_ok (gD g).
+Proof.
+  intros k g m r H. destruct (construct_valid _ _ _ _ H) as [Hv ->]. destruct (copy_ctor_discount _ _ _ _ _ H) as [Ed [_ [_ Hok]]].
+  split; [reflexivity|]. split; [apply (valid_model_k_any k); exact Hv|]. split; [exact Ed| apply setDiscount_iff_lemma; exact Hok].
+Qed.
+
+Lemma copy_ctor_rejects_bad_discount_lemma : forall k g, ~ disc_ok (gD g) ->
+  exists r, construct true k (CtorCopy g) = (None, r) /\ r <> Ok.
+Proof.
+  intros k g Hbad. destruct (construct true k (CtorCopy g)) as [[m|] r] eqn:E.
+  - exfalso. apply Hbad. exact (proj2 (proj2 (proj2 (copy_ctor_validates_discount_lemma _ _ _ _ E)))).
+  - exists r. split; [reflexivity| exact (construct_none _ _ _ _ E)].
+Qed.
+
+(* conversion of an ARBITRARY object (possibly built through NO_CHECK, no validity assumed) *)
+Lemma conversion_validates_discount_lemma : forall k m m' r, convert true k m = (Some m', r) ->
+  r = Ok /\ valid_model m' /\ mD m' = mD m /\ disc_ok (mD m).
+Proof. intros k m m' r H. unfold convert in H. exact (copy_ctor_validates_discount_lemma _ _ _ _ H). Qed.
+
+(* POMDP::Model<M>(const PM &) / POMDP::SparseModel<M>(const PM &) *)
+Lemma pomdp_copy_ctor_validates_discount_lemma : forall kb ko g p r, pconstruct true kb ko (PCtorCopy g) = (Some p, r) ->
+  r = Ok /\ valid_pmodel_k kb ko p /\ mD (pM p) = gD (gpM g) /\ disc_ok (gD (gpM g)).
+Proof.
+  intros kb ko g p r H. destruct (pconstruct_valid _ _ _ _ _ H) as [Hv ->]. split; [reflexivity|]. split; [exact Hv|].
+  cbn [pconstruct] in H. destruct (construct true kb (CtorCopy (gpM g))) as [[m|] r'] eqn:Ec; [|discriminate].
+  destruct (copy_ctor_validates_discount_lemma _ _ _ _ Ec) as [_ [_ [Ed Hok]]].
+  destruct (negb (shape3 (mS m) (mA m) (gpO g) (gpOb g))); [discriminate|].
+  destruct (copyT ko (mS m) (mA m) (gpOb g)); [|discriminate]. inversion H; subst p. cbn [pM]. split; assumption.
+Qed.
+
+(* the seeded behaviour (discount copied unchecked) as a model-level witness: the pinned commit's
+   NaN hole in setDiscount lets a NaN source through every converting constructor *)
+Definition nan_source : gmodel := {| gS := 1; gA := 1; gD := XNaN; gT := [[[XFin 1]]]; gR := [[[0]]] |}.
+Lemma conversion_nan_refuted_lemma :
+  (exists m, construct false Sparse (CtorCopy nan_source) = (Some m, Ok) /\ mD m = XNaN) /\
+  construct true Sparse (CtorCopy nan_source) = (None, Throw) /\
+  construct true Dense (CtorCopy nan_source) = (None, Throw).
+Proof. split; [eexists; split; vm_compute; reflexivity| split; vm_compute; reflexivity]. Qed.
